@@ -116,36 +116,43 @@ Fixpoint tolist_state (dims : list nat) (cs : list clo) (st : dst) : res (json *
       Ok (list_state items lid, cs', st1)
   end.
 
-Fixpoint get_state (E : denv) (v : pval) (st : dst) {struct v} : res (json * dst) :=
-  let fix states (l : list pval) (st : dst) {struct l} : res (list json * dst) :=
+(* the state-threading loops of the *_get_state functions, over an arbitrary element function *)
+Definition stf := pval -> dst -> res (json * dst).
+
+Definition is_prop (v : pval) : bool := match v with PProp _ => true | _ => false end.
+
+Section Loops.
+  Variable f : stf.
+
+  Fixpoint states_of (l : list pval) (st : dst) {struct l} : res (list json * dst) :=
     match l with
     | [] => Ok ([], st)
-    | x :: l' => do (j, st1) <- get_state E x st; do (js, st2) <- states l' st1; Ok (j :: js, st2)
-    end in
-  let fix closures (l : list pval) {struct l} : list clo :=
-    match l with [] => [] | x :: l' => get_state E x :: closures l' end in
+    | x :: l' => do (j, st1) <- f x st; do (js, st2) <- states_of l' st1; Ok (j :: js, st2)
+    end.
+
   (* the loop of dict_get_state *)
-  let fix content (l : list (dkey * pval)) (acc : list (pstr * json)) (st : dst) {struct l}
-      : res (list (pstr * json) * dst) :=
+  Fixpoint content_of (l : list (dkey * pval)) (acc : list (pstr * json)) (st : dst) {struct l}
+    : res (list (pstr * json) * dst) :=
     match l with
     | [] => Ok (acc, st)
     | (k, x) :: l' =>
-        match x with
-        | PProp _ => content l' acc st            (* isinstance(value, property): continue *)
-        | _ =>
-            do (j, st1) <- get_state E x st;
-            match k_val k with
-            | Some sc => content l' (jset (key_text sc) j acc) st1
-            | None => content l' acc (set_late EType st1)
-            end
-        end
-    end in
-  let dict_body (c m : pstr) (items : list (dkey * pval)) (id : Z) (st : dst) : res (json * dst) :=
-    let (ktid, st0) := fresh st in
-    do kts <- key_type_states E (map fst items);
-    do (cont, st1) <- content items [] st0;
-    Ok (node_state c m (K "DictNode")
-          [(K "content", JObj cont); (K "key_types", list_state kts ktid)] id, st1) in
+        if is_prop x then content_of l' acc st            (* isinstance(value, property): continue *)
+        else
+          do (j, st1) <- f x st;
+          match k_val k with
+          | Some sc => content_of l' (jset (key_text sc) j acc) st1
+          | None => content_of l' acc (set_late EType st1)
+          end
+    end.
+End Loops.
+
+Definition dict_state (c m : pstr) (cont : list (pstr * json)) (kts : list json) (ktid id : Z) : json :=
+  node_state c m (K "DictNode") [(K "content", JObj cont); (K "key_types", list_state kts ktid)] id.
+
+Fixpoint get_state (E : denv) (v : pval) (st : dst) {struct v} : res (json * dst) :=
+  let states := states_of (fun x s0 => get_state E x s0) in
+  let closures := map (fun x s0 => get_state E x s0) in
+  let content := content_of (fun x s0 => get_state E x s0) in
   match v with
   | PScalar id sc => Ok (json_state (json_text sc) id, st)
   | PSub id _ _ sc => Ok (json_state (json_text sc) id, st)
@@ -158,10 +165,17 @@ Fixpoint get_state (E : denv) (v : pval) (st : dst) {struct v} : res (json * dst
       do (js, st1) <- states items st;
       Ok (node_state c m (match q with QList => K "ListNode" | QTuple => K "TupleNode" | QSet => K "SetNode" end)
             [(K "content", JArr js)] id, st1)
-  | PDict id m c items => dict_body c m items id st
+  | PDict id m c items =>
+      let (ktid, st0) := fresh st in
+      do kts <- key_type_states E (map fst items);
+      do (cont, st1) <- content items [] st0;
+      Ok (dict_state c m cont kts ktid id, st1)
   | PDefDict id m c factory items =>
       let (did, st0) := fresh st in                       (* dict(obj) *)
-      do (main, st1) <- dict_body (K "dict") (K "builtins") items did st0;
+      let (ktid, st0') := fresh st0 in
+      do kts <- key_type_states E (map fst items);
+      do (cont, st1) <- content items [] st0';
+      let main := dict_state (K "dict") (K "builtins") cont kts ktid did in
       do (fac, st2) <- get_state E factory st1;
       Ok (node_state c m (K "DefaultDictNode")
             [(K "content", JObj [(K "main", main); (K "default_factory", fac)])] id, st2)
